@@ -133,6 +133,7 @@ def run(R):
     common.load_ir(R)
     names = common.names_for(R, 'C12')
     obs = check.verify_functions(R, names)
+    obs += common.avr_pass(R, names)
     pyobs = enc.encoder_obligations()
     R.functions['tools/zonedb/argenerator.py:{to_tiny_year,_to_code_and_modifier,_to_modifier,_to_extended_delta_code,_to_extended_offset_and_delta}; tools/tzdb/transformer.py:div_to_zero'] = dict(generated=len(pyobs), engine='pyvc')
     for name, pc, goal in pyobs:
